@@ -329,11 +329,24 @@ class VProbe : public Oomd::Engine::BasePlugin {
     e["pass"] = pass;
     e["where"] = where;
     Json::Value cgs(Json::objectValue);
+    // "probe_mid_ops": {tick: {"after": n, "ops": [...]}} - the world changes after the n-th cgroup of the first pass was probed,
+    // i.e. between two queries of one tick
+    const Json::Value& mid = g.scn["probe_mid_ops"];
+    const std::string tk = std::to_string(g.tick);
+    int idx = 0;
+    Json::Value order(Json::arrayValue);
     for (const Oomd::CgroupContext& c : ctx.addToCacheAndGet(cgroups_)) {
       std::string rel = c.cgroup().relativePath();
       cgs[rel.empty() ? "/" : rel] = probe_cgroup(c);
+      order.append(rel.empty() ? "/" : rel);
+      ++idx;
+      if (pass == 0 && mid.isMember(tk) && mid[tk]["after"].asInt() == idx) {
+        apply_ops(mid[tk]["ops"]);
+        e["mid_ops_after"] = rel;
+      }
     }
     e["cgs"] = cgs;
+    e["order"] = order;
     const auto& s = ctx.getSystemContext();
     Json::Value sys;
     sys["swaptotal"] = (Json::UInt64)s.swaptotal;
